@@ -14,7 +14,7 @@ import itertools
 import re
 
 from .loader import AnalysisError, dotted
-from .interp import Interp, Scenario, Sym, Const, FuncV, render
+from .interp import Interp, Scenario, Sym, FuncV, render
 from .guards import eval_skel, atoms as skel_atoms
 
 # the policy, from the property statements (C16 / C07 / C06): operation -> (required flags, conditions)
